@@ -3,4 +3,5 @@ CONSTANTS
   NPs = {2}
   MaxFields = 3
   Later = {"tx", "sigK", "grp"}
-INVARIANTS KeepDisjoint NoSigNoPerms Emit
+  IndDims = {"perms", "fields"}
+INVARIANTS KeepDisjoint NoSigNoPerms FlagsDoNotSign Emit
